@@ -53,6 +53,12 @@ def sim_step(desc, args, m):
     return v
   if m[0] == 'setvar':
     return True
+  if m[0] == 'setmeta':
+    v = resolve(m[1])
+    if v is None or v[0] != 'ref' or objs[v[1]]['kind'] != 'var':
+      return None
+    objs[v[1]]['meta'] = m[2]
+    return True
   node = resolve(m[1])
   if node is None or node[0] != 'ref' or objs[node[1]]['kind'] != 'node':
     return None
@@ -100,6 +106,9 @@ def gen_fn(rng, desc, args, structural, nsteps, want_obj):
       if not vars_:
         continue
       m = ['setvar', rng.choice(vars_), gen_expr(rng, vars_)]
+    elif r < 0.52 and vars_:
+      # the metadata of a Variable becomes another set: entries are removed, re-bound or added (part of the graphdef, hence "structural")
+      m = ['setmeta', rng.choice(vars_), rng.choice([0, 1, 2, 3])]
     elif r < 0.85:
       q = rng.random()
       if q < 0.2:
@@ -171,6 +180,8 @@ def cmut(m):
     return '(MSetVar %s %s)' % (cpath(m[1]), cexpr(m[2]))
   if m[0] == 'delattr':
     return '(MDelAttr %s %s)' % (cpath(m[1]), GP.ckey(m[2]))
+  if m[0] == 'setmeta':
+    return '(MSetMeta %s %s)' % (cpath(m[1]), cN(m[2]))
   s = m[3]
   if s[0] == 'static':
     cs = '(SStatic %s)' % GP.cstatic(s[1])
